@@ -62,14 +62,14 @@ def repo_env(extra=None, home=None):
 
 
 def code_hash():
-    """Hash of every .py file under REPO/osaca (keys the scratch data copies)."""
+    """Hash of every .py and .yml file under REPO/osaca (keys the scratch data copies)."""
     h = hashlib.sha256()
     for root, dirs, files in sorted(os.walk(os.path.join(REPO, "osaca"))):
         dirs.sort()
         if "__pycache__" in root:
             continue
         for f in sorted(files):
-            if f.endswith(".py"):
+            if f.endswith(".py") or f.endswith(".yml"):
                 p = os.path.join(root, f)
                 h.update(p.encode())
                 with open(p, "rb") as fh:
